@@ -33,13 +33,16 @@ section Memo
 variable {α P ν κ C : Type} [DecidableEq ν] [DecidableEq κ]
 variable (S : Spec α P ν κ C) (E : Env α P)
 
-/-- every stored sample is the normalised wrapped-function value at that node, and that value is not NaN -/
+/-- every stored sample is the normalised wrapped-function value at that node; the function returned there (did not
+raise) and the value is not NaN -/
 def DataInv (d : List (ν × α)) : Prop :=
-  ∀ u v, lookup u d = some v → E.isnan (E.f (S.coord u)) = false ∧ v = E.norm (E.f (S.coord u))
+  ∀ u v, lookup u d = some v → ∃ w, E.f (S.coord u) = some w ∧ E.isnan w = false ∧ v = E.norm w
 
 /-- every stored coefficient block is the one built from the pure node values -/
 def CoeffInv (cs : List (κ × C)) : Prop :=
-  ∀ c co, lookup c cs = some co → S.build c ((S.stencil c).map (nodeVal S E)) = some co
+  ∀ c co, lookup c cs = some co →
+    (S.stencil c).all (fun u => (E.f (S.coord u)).isSome) = true ∧
+    S.build c ((S.stencil c).map (nodeVal S E)) = some co
 
 def Inv (st : St α ν κ C) : Prop := DataInv S E st.data ∧ CoeffInv S E st.coeffs
 
@@ -48,99 +51,123 @@ theorem inv_init : Inv S E (St.init : St α ν κ C) := by
 
 theorem readNode_present {d : List (ν × α)} (hd : DataInv S E d) {u : ν} {v : α}
     (h : lookup u d = some v) : readNode E d u = nodeVal S E u := by
-  obtain ⟨h1, h2⟩ := hd u v h
-  simp [readNode, nodeVal, h, h1, h2]
+  obtain ⟨w, h0, h1, h2⟩ := hd u v h
+  simp [readNode, nodeVal, h, h0, h1, h2]
 
-theorem readNode_nan {d : List (ν × α)} (hd : DataInv S E d) {u : ν}
-    (h : E.isnan (E.f (S.coord u)) = true) : readNode E d u = nodeVal S E u := by
+theorem readNode_nan {d : List (ν × α)} (hd : DataInv S E d) {u : ν} {w : α}
+    (h0 : E.f (S.coord u) = some w) (h : E.isnan w = true) : readNode E d u = nodeVal S E u := by
   have : lookup u d = none := by
     cases hl : lookup u d with
     | none => rfl
-    | some v => have := (hd u v hl).1; rw [h] at this; cases this
-  simp [readNode, nodeVal, this, h]
+    | some v =>
+      obtain ⟨w', a, b, _⟩ := hd u v hl
+      rw [h0] at a; cases a; rw [h] at b; cases b
+  simp [readNode, nodeVal, this, h0, h]
 
-/-- the sampling loop keeps the invariant, never disturbs an existing sample, and afterwards every node of the list
-reads as its pure value -/
+/-- the sampling loop keeps the invariant, never disturbs an existing sample, runs to its end exactly when the wrapped
+function returns at every node of the list, and then every node of the list reads as its pure value -/
 theorem sample_spec (L : List ν) : ∀ (d : List (ν × α)), DataInv S E d →
     DataInv S E (sample S E L d).1 ∧
     (∀ u v, lookup u d = some v → lookup u (sample S E L d).1 = some v) ∧
-    (∀ u ∈ L, readNode E (sample S E L d).1 u = nodeVal S E u) := by
+    (sample S E L d).2.2 = L.all (fun u => (E.f (S.coord u)).isSome) ∧
+    ((sample S E L d).2.2 = true → ∀ u ∈ L, readNode E (sample S E L d).1 u = nodeVal S E u) := by
   induction L with
-  | nil => intro d hd; exact ⟨hd, fun _ _ h => h, fun _ h => by cases h⟩
+  | nil => intro d hd; exact ⟨hd, fun _ _ h => h, rfl, fun _ _ h => by cases h⟩
   | cons u us ih =>
     intro d hd
     cases hl : lookup u d with
     | some v =>
       have hs : sample S E (u :: us) d = sample S E us d := by simp [sample, hl]
       rw [hs]
-      obtain ⟨i1, i2, i3⟩ := ih d hd
-      refine ⟨i1, i2, ?_⟩
-      intro w hw
-      rcases List.mem_cons.mp hw with rfl | hw
-      · exact readNode_present S E i1 (i2 _ _ hl)
-      · exact i3 w hw
-    | none =>
-      by_cases hn : E.isnan (E.f (S.coord u)) = true
-      · have hs : (sample S E (u :: us) d).1 = (sample S E us d).1 := by simp [sample, hl, hn]
-        rw [hs]
-        obtain ⟨i1, i2, i3⟩ := ih d hd
-        refine ⟨i1, i2, ?_⟩
-        intro w hw
+      obtain ⟨i1, i2, i3, i4⟩ := ih d hd
+      obtain ⟨w, h0, _, _⟩ := hd u v hl
+      refine ⟨i1, i2, ?_, ?_⟩
+      · rw [i3]; simp [h0]
+      · intro hok w' hw
         rcases List.mem_cons.mp hw with rfl | hw
-        · exact readNode_nan S E i1 hn
-        · exact i3 w hw
-      · have hn' : E.isnan (E.f (S.coord u)) = false := by simpa using hn
-        have hs : (sample S E (u :: us) d).1 =
-            (sample S E us ((u, E.norm (E.f (S.coord u))) :: d)).1 := by simp [sample, hl, hn']
+        · exact readNode_present S E i1 (i2 _ _ hl)
+        · exact i4 hok w' hw
+    | none =>
+      cases hf : E.f (S.coord u) with
+      | none =>
+        have hs : sample S E (u :: us) d = (d, [S.coord u], false) := by simp [sample, hl, hf]
         rw [hs]
-        have hd' : DataInv S E ((u, E.norm (E.f (S.coord u))) :: d) := by
-          intro w v hw
-          by_cases hwu : u = w
-          · subst hwu
-            rw [lookup_cons_self] at hw
-            cases hw
-            exact ⟨hn', rfl⟩
-          · rw [lookup_cons_ne hwu] at hw
-            exact hd w v hw
-        obtain ⟨i1, i2, i3⟩ := ih _ hd'
-        refine ⟨i1, ?_, ?_⟩
-        · intro w v hw
-          apply i2
-          by_cases hwu : u = w
-          · subst hwu; rw [hl] at hw; cases hw
-          · rw [lookup_cons_ne hwu]; exact hw
-        · intro w hw
-          rcases List.mem_cons.mp hw with rfl | hw
-          · exact readNode_present S E i1 (i2 _ _ (lookup_cons_self _ _ _))
-          · exact i3 w hw
+        refine ⟨hd, fun _ _ h => h, ?_, ?_⟩
+        · simp [hf]
+        · intro h; cases h
+      | some w =>
+        by_cases hn : E.isnan w = true
+        · have hs1 : (sample S E (u :: us) d).1 = (sample S E us d).1 := by simp [sample, hl, hf, hn]
+          have hs2 : (sample S E (u :: us) d).2.2 = (sample S E us d).2.2 := by simp [sample, hl, hf, hn]
+          rw [hs1, hs2]
+          obtain ⟨i1, i2, i3, i4⟩ := ih d hd
+          refine ⟨i1, i2, ?_, ?_⟩
+          · rw [i3]; simp [hf]
+          · intro hok w' hw
+            rcases List.mem_cons.mp hw with rfl | hw
+            · exact readNode_nan S E i1 hf hn
+            · exact i4 hok w' hw
+        · have hn' : E.isnan w = false := by simpa using hn
+          have hs1 : (sample S E (u :: us) d).1 = (sample S E us ((u, E.norm w) :: d)).1 := by
+            simp [sample, hl, hf, hn']
+          have hs2 : (sample S E (u :: us) d).2.2 = (sample S E us ((u, E.norm w) :: d)).2.2 := by
+            simp [sample, hl, hf, hn']
+          rw [hs1, hs2]
+          have hd' : DataInv S E ((u, E.norm w) :: d) := by
+            intro w' v hw
+            by_cases hwu : u = w'
+            · subst hwu
+              rw [lookup_cons_self] at hw
+              cases hw
+              exact ⟨w, hf, hn', rfl⟩
+            · rw [lookup_cons_ne hwu] at hw
+              exact hd w' v hw
+          obtain ⟨i1, i2, i3, i4⟩ := ih _ hd'
+          refine ⟨i1, ?_, ?_, ?_⟩
+          · intro w' v hw
+            apply i2
+            by_cases hwu : u = w'
+            · subst hwu; rw [hl] at hw; cases hw
+            · rw [lookup_cons_ne hwu]; exact hw
+          · rw [i3]; simp [hf]
+          · intro hok w' hw
+            rcases List.mem_cons.mp hw with rfl | hw
+            · exact readNode_present S E i1 (i2 _ _ (lookup_cons_self _ _ _))
+            · exact i4 hok w' hw
 
 /-- one evaluation keeps the invariant and returns the history-free value -/
 theorem evalStep_spec (nbe : Bool) (st : St α ν κ C) (hst : Inv S E st) (p : P) :
     Inv S E (evalStep S E nbe st p).1 ∧ (evalStep S E nbe st p).2.1 = evalPure S E nbe p := by
   unfold evalStep evalPure
   cases hloc : S.locate p with
-  | none => cases nbe <;> simp [hst]
+  | none => cases nbe <;> simp [hst] <;> cases E.f p <;> simp [hst]
   | some c =>
     simp only []
     split
     · rename_i co hco
-      have := hst.2 c co hco
-      exact ⟨hst, by rw [this]⟩
-    · obtain ⟨i1, _, i3⟩ := sample_spec S E (S.stencil c) st.data hst.1
-      have hv : (S.stencil c).map (readNode E (sample S E (S.stencil c) st.data).1) =
-          (S.stencil c).map (nodeVal S E) := List.map_congr_left i3
-      simp only [hv]
-      cases hb : S.build c ((S.stencil c).map (nodeVal S E)) with
-      | none => exact ⟨⟨i1, hst.2⟩, rfl⟩
-      | some co =>
-        refine ⟨⟨i1, ?_⟩, rfl⟩
-        intro c' co' h
-        by_cases hcc : c = c'
-        · subst hcc
-          simp only [lookup_cons_self] at h
-          cases h; exact hb
-        · simp only [lookup_cons_ne hcc] at h
-          exact hst.2 c' co' h
+      obtain ⟨h1, h2⟩ := hst.2 c co hco
+      exact ⟨hst, by simp [h1, h2]⟩
+    · obtain ⟨i1, _, i3, i4⟩ := sample_spec S E (S.stencil c) st.data hst.1
+      rw [i3]
+      by_cases hall : (S.stencil c).all (fun u => (E.f (S.coord u)).isSome) = true
+      · simp only [hall, if_true]
+        have hv : (S.stencil c).map (readNode E (sample S E (S.stencil c) st.data).1) =
+            (S.stencil c).map (nodeVal S E) := List.map_congr_left (i4 (by rw [i3]; exact hall))
+        simp only [hv]
+        cases hb : S.build c ((S.stencil c).map (nodeVal S E)) with
+        | none => exact ⟨⟨i1, hst.2⟩, rfl⟩
+        | some co =>
+          refine ⟨⟨i1, ?_⟩, rfl⟩
+          intro c' co' h
+          by_cases hcc : c = c'
+          · subst hcc
+            simp only [lookup_cons_self] at h
+            cases h; exact ⟨hall, hb⟩
+          · simp only [lookup_cons_ne hcc] at h
+            exact hst.2 c' co' h
+      · have hall' : (S.stencil c).all (fun u => (E.f (S.coord u)).isSome) = false := by simpa using hall
+        simp only [hall', Bool.false_eq_true, if_false]
+        exact ⟨⟨i1, hst.2⟩, trivial⟩
 
 theorem run_inv (nbe : Bool) (ps : List P) : ∀ st : St α ν κ C, Inv S E st → Inv S E (run S E nbe st ps) := by
   induction ps with
@@ -152,10 +179,10 @@ theorem run_inv (nbe : Bool) (ps : List P) : ∀ st : St α ν κ C, Inv S E st 
 
 /-! #### which nodes are sampled when -/
 
-/-- a stored sample is never requested again; an unsampled node of a duplicate-free stencil is requested exactly
-once, in stencil order -/
-theorem sample_calls (L : List ν) (hnd : L.Nodup) : ∀ (d : List (ν × α)),
-    (sample S E L d).2 = (L.filter fun u => (lookup u d).isNone).map S.coord := by
+/-- a stored sample is never requested again; when the wrapped function returns everywhere, an unsampled node of a
+duplicate-free stencil is requested exactly once, in stencil order -/
+theorem sample_calls (L : List ν) (hnd : L.Nodup) (htot : ∀ q, (E.f q).isSome) : ∀ (d : List (ν × α)),
+    (sample S E L d).2.1 = (L.filter fun u => (lookup u d).isNone).map S.coord := by
   induction L with
   | nil => intro d; rfl
   | cons u us ih =>
@@ -171,14 +198,35 @@ theorem sample_calls (L : List ν) (hnd : L.Nodup) : ∀ (d : List (ν × α)),
         intro w hw
         have : w ≠ u := fun h => hnd'.1 (h ▸ hw)
         rw [hd' w this]
-      by_cases hn : E.isnan (E.f (S.coord u)) = true
-      · simp [sample, hl, hn, ih hnd'.2 d]
-      · have hn' : E.isnan (E.f (S.coord u)) = false := by simpa using hn
-        simp only [sample, hl, hn', Bool.false_eq_true, if_false, ih hnd'.2, List.filter_cons,
+      obtain ⟨w, hf⟩ := Option.isSome_iff_exists.mp (htot (S.coord u))
+      by_cases hn : E.isnan w = true
+      · simp [sample, hl, hf, hn, ih hnd'.2 d]
+      · have hn' : E.isnan w = false := by simpa using hn
+        simp only [sample, hl, hf, hn', Bool.false_eq_true, if_false, ih hnd'.2, List.filter_cons,
           Option.isNone_none, if_true, List.map_cons]
         rw [key]
-        intro w hw
+        intro w' hw
         exact lookup_cons_ne (Ne.symm hw) _ _
+
+/-- when the wrapped function raises, the call at which it raised is the last one made -/
+theorem sample_raise_last (L : List ν) : ∀ (d : List (ν × α)), (sample S E L d).2.2 = false →
+    ∃ q, (sample S E L d).2.1.getLast? = some q ∧ E.f q = none := by
+  induction L with
+  | nil => intro d h; simp [sample] at h
+  | cons u us ih =>
+    intro d h
+    cases hl : lookup u d with
+    | some v =>
+      have hs : sample S E (u :: us) d = sample S E us d := by simp [sample, hl]
+      rw [hs] at h ⊢; exact ih d h
+    | none =>
+      cases hf : E.f (S.coord u) with
+      | none => exact ⟨S.coord u, by simp [sample, hl, hf], hf⟩
+      | some w =>
+        simp only [sample, hl, hf] at h ⊢
+        obtain ⟨q, h1, h2⟩ := ih _ h
+        refine ⟨q, ?_, h2⟩
+        rw [List.getLast?_cons, h1]; rfl
 
 end Memo
 
